@@ -398,6 +398,17 @@ def _opt_record(fn, args, stream, r):
         if sh_ not in seen_here:
             seen_here.add(sh_)
             fresh_shape = True
+    # ... and the first three rejections with every distinct message (digits blanked): one raise site each - a message that
+    # formats a bytes object, say, is built on that path only
+    if not r.ok and r.exc is not None:
+        try:
+            msg = re.sub(r"[0-9]+", "#", str(r.exc))[:60]
+        except Exception:  # noqa: BLE001
+            msg = "?"
+        nmsg = _OPT_COUNT.get((bucket, "msg", msg), 0)
+        _OPT_COUNT[(bucket, "msg", msg)] = nmsg + 1
+        if nmsg < 3:
+            fresh_shape = True
     if k >= 10 and not fresh_shape:
         slots = _OPT_SLOTS.setdefault(bucket, [])
         if len(slots) >= cap:
@@ -686,6 +697,10 @@ DES_SEMIWEAK = [bytes.fromhex(x) for x in (
     "1FE01FE00EF10EF1", "E01FE01FF10EF10E", "1FFE1FFE0EFE0EFE", "FE1FFE1FFE0EFE0E", "E0FEE0FEF1FEF1FE", "FEE0FEE0FEF1FEF1")]
 
 
+AES_ZERO_KCV = ("4a277d46da4029d97c846013ab817aa0", "37b49073c5629b87a64c1aa1135747fdc3e2c6072cf1e263",
+                "f5f5dfee26b87d3e515b2b89a869bf544b8fde22d4a8b6c760f099cf47a2a04c")
+
+
 def special_keys(rng, size, des=True, limit=None):
     """Key values a specification does not exclude but an implementation might treat specially: constant bytes, the DES weak and
     semi-weak keys (also with the parity bits cleared), such a component beside random ones in every position, repeated
@@ -707,6 +722,7 @@ def special_keys(rng, size, des=True, limit=None):
     elif size:
         a = bytes(rng.getrandbits(8) for _ in range(8))
         out += [(a * 4)[:size], (a + bytes(x ^ 0xFF for x in a)) * (size // 16) + a[: size % 16]]
+        out[6:6] = [bytes.fromhex(k) for k in AES_ZERO_KCV if len(k) == 2 * size]      # E_K(0) starts 000000 (found by search)
     seen, uniq = set(), []
     for k in out:
         if len(k) == size and k not in seen:
